@@ -318,7 +318,7 @@ func (m *monC13) Step(f *Flow) {
 	}
 	// no forged progress: a completion needs its in-order acknowledgement in
 	// the input, for a PUBLISH that was written
-	for _, pb := range f.Pubs {
+	for _, pb := range f.Active {
 		if !(pb.ExClosed || pb.Deleted) || m.checked[pb.Idx] || pb.Gen != w.Gen {
 			continue
 		}
